@@ -13,7 +13,7 @@ use crate::refs::cksum;
 pub const INFO: CheckInfo = CheckInfo {
     prop: "C13",
     level: "model_checking",
-    rule: "bounded exhaustive enumeration of (dictionary length lattice around 0, MIN_MATCH, window-262, window, 2*window, 3*window) x windowBits x level x memLevel x wrapper {raw, zlib} x input {related to the dictionary tail, unrelated} x schedule {one call, sync flush at n/2, small rooms}; plus raw streams with a second dictionary installed between blocks. For every history: deflateGetDictionary / inflateGetDictionary after EVERY call are compared with the history model R7; the zlib header must carry FDICT and DICTID = Adler-32(dict) (R1); inflate must answer NEED_DICT with that id, accept exactly the right dictionary, reject a modified one with DATA_ERROR, refuse a dictionary offered too early, and then round-trip; the stream is also decoded by the strict reference decoder with the dictionary as history. distinct_nontrivial = distinct (compressed bytes, dictionary lengths returned) outcomes.",
+    rule: "bounded exhaustive enumeration of (dictionary length lattice around 0, MIN_MATCH, window-262, window, 2*window, 3*window) x windowBits x level x memLevel x wrapper {raw, zlib} x input {related to the dictionary tail, unrelated} x schedule {one call, sync flush at n/2, small rooms}; plus raw streams with a second dictionary installed between blocks. For every history: deflateGetDictionary / inflateGetDictionary after EVERY call are compared with the history model R7; the zlib header must carry FDICT and DICTID = Adler-32(dict) (R1); inflate must answer NEED_DICT with that id, accept exactly the right dictionary, reject a modified one with DATA_ERROR, refuse a dictionary offered too early, and then round-trip; the stream is also decoded by the strict reference decoder with the dictionary as history. distinct_nontrivial = distinct (compressed bytes, dictionary lengths returned) outcomes. The decoding side runs with windowBits 15, with the window the stream was written with and (zlib) with 0.",
     assumptions: &["R7 (history = dict ‖ data) and R1/R2/R3 are trusted", "deflateGetDictionary may legally return up to 262 bytes less than a full window right after a slide (zlib documents 258); the oracle demands a suffix of the history of length in [min(|history|, window-262), window]"],
     bound_quick: "windowBits {9,15}, 16/5 dictionary lengths, 6 levels, memLevel {1,8}, 2 wrappers, 2 inputs, 3 schedules",
     bound_thorough: "windowBits 9..15, 16 dictionary lengths, 10 levels, memLevel {1,2,8,9}, 2 wrappers, 2 inputs, 3 schedules; Rust API: 3 windows x 7 dictionary lengths x 10 levels x 2 wrappers",
@@ -168,12 +168,13 @@ fn deflate_with_dict(c: &mut Case, row: &hfam::DictRow, env: &Env) -> Result<Vec
     }
 }
 
-fn inflate_with_dict(c: &mut Case, row: &hfam::DictRow, stream: &[u8], env: &Env, in_chunk: usize, room: usize) -> Result<(), String> {
+fn inflate_with_dict(c: &mut Case, row: &hfam::DictRow, stream: &[u8], env: &Env, in_chunk: usize, room: usize, wbits_arg: i32) -> Result<(), String> {
     unsafe {
         let cfg = &row.cfg;
         let dict = &row.dict.data;
         let input = &row.input.data;
-        let wb = wb_for(cfg.wrap, 15);
+        // (the decoder's windowBits argument: 15, the window the stream was written with, or - zlib - 0 = "as the header says")
+        let wb = if wbits_arg == 0 { 0 } else { wb_for(cfg.wrap, wbits_arg) };
         let mut s = Strm::guarded(0x5A);
         let r = Rs::inflateInit2_(s.p(), wb, Rs::zlibVersion(), STREAM_SIZE);
         if r != Z_OK {
@@ -539,9 +540,18 @@ pub fn run(ctx: &mut Ctx) {
                 c.outcome(hash_bytes(&out));
                 c.nontrivial();
                 c05::check_stream(c, &row.cfg, &row.input.data, &out, Some(&row.dict.data), None)?;
-                inflate_with_dict(c, row, &out, &env, AMPLE, AMPLE)?;
-                inflate_with_dict(c, row, &out, &env, 1, AMPLE)?;
-                inflate_with_dict(c, row, &out, &env, AMPLE, 300)?;
+                inflate_with_dict(c, row, &out, &env, AMPLE, AMPLE, 15)?;
+                inflate_with_dict(c, row, &out, &env, 1, AMPLE, 15)?;
+                inflate_with_dict(c, row, &out, &env, AMPLE, 300, 15)?;
+                // a decoder told about the small window: history and acceptance are the same (it keeps 32 KiB anyway)
+                let own = row.cfg.wbits.max(9);
+                if own != 15 {
+                    inflate_with_dict(c, row, &out, &env, AMPLE, AMPLE, own)?;
+                    inflate_with_dict(c, row, &out, &env, AMPLE, 300, own)?;
+                    if row.cfg.wrap == Wrap::Zlib {
+                        inflate_with_dict(c, row, &out, &env, 7, AMPLE, 0)?;
+                    }
+                }
                 if row.cfg.wrap == Wrap::Zlib && !row.dict.data.is_empty() {
                     no_dict_keeps_asking(&out, &env)?;
                 }
